@@ -428,7 +428,14 @@ def _skolemize_goal(g, counter=[0]):
         fresh = []
         for i in range(n):
             counter[0] += 1
-            fresh.append(z3.Const('sk!%s!%d' % (g.var_name(i), counter[0]), g.var_sort(i)))
+            name = g.var_name(i)
+            if name.startswith('q!'):
+                # binder of a specification quantifier: the constant it was built from.  The only facts the path
+                # holds about that constant are type invariants of values read through it (valid for every value),
+                # and they are needed to use quantified hypotheses about well-typed objects
+                fresh.append(z3.Const(name, g.var_sort(i)))
+            else:
+                fresh.append(z3.Const('sk!%s!%d' % (name, counter[0]), g.var_sort(i)))
         consts += fresh
         g = z3.substitute_vars(g.body(), *reversed(fresh))
     return g, consts
